@@ -68,7 +68,7 @@ Qed.
 Lemma add_edges_from_out eb a s : lib_or_index (out_of (add_edges_from eb a s)).
 Proof.
   destruct eb as [l|l|l|l|l]; simpl.
-  - destruct l as [|[|x xs] r]; [lo|lo|]. left. apply loop_out; [lo|]. intros; apply bulk_item_out.
+  - left. apply loop_out; [lo|]. intros; apply bulk_item_out.
   - left. apply loop_out; [lo|]. intros s' [m i]; apply bulk_item_out.
   - left. apply loop_out; [lo|]. intros s' [m ea]; apply bulk_item_out.
   - left. apply loop_out; [lo|]. intros s' [[m i] ea]; apply bulk_item_out.
